@@ -29,14 +29,14 @@ def allScalars : List Scalar := [.int, .int64, .float, .float64, .string, .id, .
 
 /-- What is still unsound at the response level (the leaf branch of `resolve` drops the value on a
 `CoerceOut` error: D15 repaired; integer narrowings range-checked and String/ID ← unsigned printed
-unsigned: integer part of D16 and D48 repaired): the float arms of D16 — Int/Int64 ← float truncates
-fractions (pinned by the repository's own tests) and is unchecked for range, Float ← float64 may
-overflow to ±Inf, NaN/±Inf pass through, Float ← "Inf"/"NaN" strings. -/
+unsigned: integer part of D16 and D48 repaired): the float arms of Int / Int64 (D16): Int ← float truncates
+fractions (pinned by the repository's own tests) and is unchecked for range.  The Float / Float64 arms are
+finiteness-checked now. -/
 def pinnedOutR : Scalar → List (Kind × Action)
   | .int => [(.f32, .conv .i32), (.f64, .conv .i32)]
   | .int64 => [(.f32, .conv .i64), (.f64, .conv .i64)]
-  | .float => [(.f32, .asIs), (.f64, .conv .f32), (.str, .parseFloatKeep .f32)]
-  | .float64 => [(.f32, .conv .f64), (.f64, .asIs), (.str, .parseFloatKeep .f64)]
+  | .float => []
+  | .float64 => []
   | .string => []
   | .id => []
   | .boolean => []
